@@ -1264,9 +1264,9 @@ func (r *Runtime) arrayproto_flatMap(call FunctionCall) Value {
 
 func (r *Runtime) arrayproto_with(call FunctionCall) Value {
 	o := call.This.ToObject(r)
+	length := toLength(o.self.getStr("length", nil))
 	relativeIndex := call.Argument(0).ToInteger()
 	value := call.Argument(1)
-	length := toLength(o.self.getStr("length", nil))
 
 	actualIndex := int64(0)
 	if relativeIndex >= 0 {
@@ -1278,7 +1278,7 @@ func (r *Runtime) arrayproto_with(call FunctionCall) Value {
 		panic(r.newErrorf(r.getRangeError(), "Invalid index %s", call.Argument(0).String()))
 	}
 
-	if src := r.checkStdArrayObj(o); src != nil {
+	if src := r.checkStdArrayObj(o); src != nil && int64(len(src.values)) == length {
 		a := make([]Value, 0, length)
 		for k := int64(0); k < length; k++ {
 			pk := valueInt(k)
